@@ -94,7 +94,8 @@ def run(ctx):
     args = ["--prop", "C15"]
     if spec:
         args += ["--extra", spec]
-    ctx.run_shards(exe, args, cases)
+    # the wall-clock limit is only a safety net against a coder that stops returning (no verdict is taken from it)
+    ctx.run_shards(exe, args, cases, timeout=1200 if ctx.tier == "quick" else 6 * 3600)
     c = ctx.counters
     need = MIN_CONVERTED[ctx.tier]
     for f in FILTERS:
